@@ -5,9 +5,10 @@ import NutilsVerif.Model.C06
 `Expr` is a fragment of `nutils.evaluable` restricted to integer arrays, flattened to `List Int`:
 constants, arguments with a declared range (the harness realises them as `Argument` subclasses),
 loop indices, the pointwise integer operations, `InRange`, `NormDim`, `RavelIndex`, `Range`,
-`InsertAxis`, `Take`, `Sum`, `_SizesToOffsets`, `LoopSum`, `LoopConcatenate`.  Nodes whose range
-depends on a length (`Sum`, `_SizesToOffsets`, …) carry that length expression as an explicit child
-(`f.shape[-1]` in the code); the evaluator checks that the child really is the length.
+`InsertAxis`, `Take`, `Sum`, `_SizesToOffsets`, `LoopSum`, `LoopConcatenate`.  Nodes whose range or
+whose arguments depend on a length (`Sum`, `_SizesToOffsets`, `LoopConcatenate` whose `start/stop/concat_length`
+are built from `func.shape[-1]`, …) carry that length expression as an explicit child (`f.shape[-1]` in the
+code); the evaluator checks that the child really is the length.
 
 * `eval`    what evaluation delivers (`none` = evaluation raises / operands outside the modelled domain)
 * `bounds`  `_intbounds` of the node (`none` = it raises)
@@ -39,7 +40,7 @@ inductive Expr where
   | sum (f n : Expr)
   | sizesToOffsets (s n : Expr)
   | loopSum (id : Nat) (len body : Expr)
-  | loopConcat (id : Nat) (len body : Expr)
+  | loopConcat (id : Nat) (len body blen : Expr)
 deriving Repr, Inhabited
 
 /-- what a node can depend on: a named argument or the index of an enclosing loop -/
@@ -85,6 +86,12 @@ def takeVal (fv : List Int) (i : Int) : Option Int :=
 /-- values of the loop body for the iterations `0 .. n-1` -/
 def iterate (n : Int) (body : Int → Option (List Int)) : Option (List (List Int)) :=
   if n < 0 then none else mapOpt (fun (i : Nat) => body (i : Int)) (List.range n.toNat)
+
+/-- one chunk of a `LoopConcatenate`: the body value, whose length must be what the body's announced length evaluates to -/
+def checkedPart (p : Option (List Int)) (k : Option Int) : Option (List Int) :=
+  match p, k with
+  | some p, some k => if (p.length : Int) = k then some p else none
+  | _, _ => none
 
 def eval : Expr → Env → Option (List Int)
   | .const _ vals, _ => some vals
@@ -147,10 +154,10 @@ def eval : Expr → Env → Option (List Int)
       | some parts => some [parts.flatten.sum]
       | none => none
     | none => none
-  | .loopConcat id len body, ρ =>
+  | .loopConcat id len body blen, ρ =>
     match scalarOf (eval len ρ) with
     | some n =>
-      match iterate n (fun i => eval body (ρ.setLoop id i)) with
+      match iterate n (fun i => checkedPart (eval body (ρ.setLoop id i)) (scalarOf (eval blen (ρ.setLoop id i)))) with
       | some parts => some parts.flatten
       | none => none
     | none => none
@@ -174,22 +181,42 @@ def isScalar : Expr → Bool
   | .loopSum .. => true
   | .loopConcat .. => false
 
-/-- `Evaluable.arguments`: union over the dependencies; a `Loop` removes its own index -/
+/-- everything the value or the definedness of a node can depend on: arguments, free loop indices, and the arguments of the
+lengths of `Argument`s and loop indices (an `Argument` raises when the passed value does not have the announced shape) -/
+def depsAll : Expr → List Dep
+  | .const .. => []
+  | .argS name .. => [.arg name]
+  | .argV name _ _ len => .arg name :: depsAll len
+  | .loopIndex id len => .loop id :: depsAll len
+  | .neg a | .abs a | .sign a => depsAll a
+  | .add a b | .mul a b | .floordiv a b | .mod a b | .min a b | .max a b => depsAll a ++ depsAll b
+  | .inRange a b | .normDim a b | .insertAxis a b | .take a b | .sum a b | .sizesToOffsets a b => depsAll a ++ depsAll b
+  | .ravelIndex ia ib nb => depsAll ia ++ depsAll ib ++ depsAll nb
+  | .range n => depsAll n
+  | .loopSum id len body => depsAll len ++ (depsAll body).filter (· ≠ .loop id)
+  | .loopConcat id len body blen => depsAll len ++ (depsAll body ++ depsAll blen).filter (· ≠ .loop id)
+
+/-- `Evaluable.arguments` as announced by the code: union over the dependencies, except that `Argument.arguments` and
+`_LoopIndex.arguments` are `{self}` (the arguments of their shape / length are not included); a `Loop` removes its own index -/
 def deps : Expr → List Dep
   | .const .. => []
   | .argS name .. => [.arg name]
-  | .argV name _ _ len => .arg name :: deps len
-  | .loopIndex id len => .loop id :: deps len
+  | .argV name .. => [.arg name]
+  | .loopIndex id _ => [.loop id]
   | .neg a | .abs a | .sign a => deps a
   | .add a b | .mul a b | .floordiv a b | .mod a b | .min a b | .max a b => deps a ++ deps b
-  | .inRange a b | .normDim a b | .insertAxis a b | .take a b | .sum a b | .sizesToOffsets a b => deps a ++ deps b
+  | .inRange a b | .normDim a b | .insertAxis a b | .take a b => deps a ++ deps b
+  | .sum f _ | .sizesToOffsets f _ => deps f   -- the length child is `f.shape[-1]`, not a dependency of the node
   | .ravelIndex ia ib nb => deps ia ++ deps ib ++ deps nb
   | .range n => deps n
-  | .loopSum id len body | .loopConcat id len body => deps len ++ (deps body).filter (· ≠ .loop id)
+  | .loopSum id len body => deps len ++ (deps body).filter (· ≠ .loop id)
+  | .loopConcat id len body blen => deps len ++ (deps body ++ deps blen).filter (· ≠ .loop id)
 
-/-- `Array._intbounds_impl` (the default): a 0-d constant integer array is evaluated (`__index__`), else unbounded -/
+/-- `Array._intbounds_impl` (the default): a 0-d constant integer array is evaluated (`__index__`), else unbounded.
+(`isconstant` is `not arguments`; on DAGs that can be built — every loop index inside a loop carries the loop's own length —
+`deps e = []` and `depsAll e = []` coincide.) -/
 def defaultBounds (e : Expr) : Option Rng :=
-  if isScalar e && (deps e).isEmpty then
+  if isScalar e && (depsAll e).isEmpty then
     match scalarOf (eval e Env.empty) with
     | some v => some (int v, int v)
     | none => none
@@ -225,7 +252,58 @@ def bounds : Expr → Option Rng
   | .sum f n => (bounds f).bind fun rf => (bounds n).bind fun rn => bnd (guardIdx rn (tfSum rf rn))
   | .sizesToOffsets s n => (bounds n).bind fun rn => (bounds s).bind fun rs => bnd (guardIdx rs (tfSizesToOffsets rs rn))
   | .loopSum id len body => (defaultBounds (.loopSum id len body)).bind post
-  | .loopConcat _ _ body => (bounds body).bind fun r => bnd (tfIdentity r)
+  | .loopConcat _ _ body _ => (bounds body).bind fun r => bnd (tfIdentity r)
+
+/-! ## announced shape (0-d or 1-d: the announced length as an expression) -/
+
+def one : Expr := .const true [1]
+
+/-- `loop_concatenate`: `concat_length = Take(_SizesToOffsets(chunk_sizes), index.length)` with
+`chunk_sizes = loop_concatenate(InsertAxis(chunk_size, 1), index)`, whose own length is built the same way from the constant
+chunk size 1.  (For a chunk size without arguments the code uses `InsertAxis(chunk_size, length)` as `chunk_sizes` instead: same
+values and the same range — `_SizesToOffsets` only reads upper bounds —, checked by the harness against the real shape.) -/
+def concatLen (id : Nat) (len blen : Expr) : Expr :=
+  .take (.sizesToOffsets (.loopConcat id len (.insertAxis blen one) one)
+      (.take (.sizesToOffsets (.insertAxis one len) len) len)) len
+
+/-- the announced `shape`: `none` = 0-d, `some l` = 1-d of length `l` (2-d results of `RavelIndex` are outside the fragment) -/
+def lenOf : Expr → Option Expr
+  | .const s vals => if s then none else some (.const true [(vals.length : Int)])
+  | .argS .. => none
+  | .argV _ _ _ len => some len
+  | .loopIndex .. => none
+  | .neg a | .abs a | .sign a => lenOf a
+  | .add a _ | .mul a _ | .floordiv a _ | .mod a _ | .min a _ | .max a _ => lenOf a
+  | .inRange idx _ => lenOf idx
+  | .normDim _ idx => lenOf idx
+  | .ravelIndex ia ib _ => (match lenOf ia with | none => lenOf ib | some l => some l)
+  | .range n => some n
+  | .insertAxis _ n => some n
+  | .take _ idx => lenOf idx
+  | .sum .. => none
+  | .sizesToOffsets _ n => some (.add n one)
+  | .loopSum .. => none
+  | .loopConcat id len _ blen => some (concatLen id len blen)
+
+/-- well-shaped expressions of the 0-d / 1-d fragment -/
+def WF : Expr → Prop
+  | .const s vals => s = true → vals.length = 1
+  | .argS .. => True
+  | .argV _ _ _ len => WF len
+  | .loopIndex _ len => WF len
+  | .neg a | .abs a | .sign a | .range a => WF a
+  | .add a b | .mul a b | .floordiv a b | .mod a b | .min a b | .max a b => WF a ∧ WF b
+  | .inRange a b | .normDim a b | .take a b | .sum a b | .sizesToOffsets a b => WF a ∧ WF b
+  | .ravelIndex ia ib nb => WF ia ∧ WF ib ∧ WF nb ∧ (lenOf ia = none ∨ lenOf ib = none)
+  | .insertAxis a n => WF a ∧ WF n ∧ lenOf a = none
+  | .loopSum _ len body => WF len ∧ WF body
+  | .loopConcat _ len body blen => WF len ∧ WF body ∧ WF blen
+
+/-- the evaluated value has the announced shape -/
+def LenOK (e : Expr) (ρ : Env) (v : List Int) : Prop :=
+  match lenOf e with
+  | none => v.length = 1
+  | some l => scalarOf (eval l ρ) = some (v.length : Int)
 
 /-! ## Part 4: consumers of ranges -/
 
@@ -262,14 +340,11 @@ def simpMax (x y : Expr) : Option Expr :=
   | some r1, some r2 => if PyNum.le r2.2 r1.1 then some x else if PyNum.le r1.2 r2.1 then some y else none
   | _, _ => none
 
-/-- `NormDim._simplified` (the two range-based rules; the second, `index + lower_length`, is modelled for 0-d operands) -/
+/-- `NormDim._simplified`, first rule: `0 <= lower_index and upper_index < lower_length` (the second rule, `index + lower_length`
+for a constant length and a negative index, and the constant-folding rule are exercised on the real code only) -/
 def simpNormDim (len idx : Expr) : Option Expr :=
   match bounds len, bounds idx with
-  | some rl, some ri =>
-    if PyNum.le (int 0) ri.1 && PyNum.lt ri.2 rl.1 then some idx
-    else match rl.1 with
-      | int c => if PyNum.eq rl.1 rl.2 && PyNum.le (neg rl.1) ri.1 && PyNum.lt ri.2 (int 0) && isScalar idx then some (.add idx (.const true [c])) else none
-      | _ => none
+  | some rl, some ri => if PyNum.le (int 0) ri.1 && PyNum.lt ri.2 rl.1 then some idx else none
   | _, _ => none
 
 end NutilsVerif.C06
